@@ -1063,10 +1063,20 @@ def check_error_checked(ctx, fn, callee, rule='R-ERRCHK'):
             return (('var', k), ok_when_true)
         return None
 
+    def _mine(i, kind, what):
+        return ((kind == 'call' and index.get(what) == i) or (kind == 'var' and sites[i][1] == what)) if i is not None else False
+
     def transfer(n, st):
         if n.k == 'CallExpr' and n.id in index:
             return frozenset({('U', index[n.id])})
         key = None
+        if n.k == 'VarDecl' and n.child('init') is not None and (n.ct or n.t or '').replace('const ', '').strip() == 'bool':
+            # a named condition `bool failed = (r != NoError);`: branching on it later is that comparison, for the reads pending now
+            t_ = tested(n.child('init'))
+            if t_ is not None:
+                (kind_, what_), okt_ = t_
+                pend = tuple(sorted(i for (s, i) in st if s == 'U' and _mine(i, kind_, what_)))
+                return frozenset([x for x in st if not (x[0] == 'B' and x[1][0] == n.d)] + [('B', (n.d, kind_, what_, okt_, pend))])
         if n.k == 'VarDecl' and n.child('init') is not None:
             key, rhs = 'v%d:%s' % (n.d, n.n), n.child('init')
         elif (is_assign(n) and n.op == '=') or n.k == 'CompoundAssignOperator':
@@ -1075,20 +1085,37 @@ def check_error_checked(ctx, fn, callee, rule='R-ERRCHK'):
             r0 = _strip_casts(rhs)
             if not (r0 is not None and r0.k == 'CallExpr' and r0.id in index):
                 # the result variable now holds something else: the pending read can no longer be vouched for by it
-                return frozenset((('X', i) if s in ('U',) else (s, i)) for (s, i) in st)
+                return frozenset((('X', i) if s in ('U',) else (s, i)) for (s, i) in st if s != 'B')
         return st
 
     def refine(blk, k, succ, st):
         if len(blk.s) != 2 or blk.tc is None:
             return st
-        t = tested(g.branch_cond(blk))
+        bc = g.branch_cond(blk)
+        t = tested(bc)
+        only = None
+        if t is None:
+            c0, neg0 = _strip_casts(bc), False
+            while c0 is not None and (c0.k == 'ParenExpr' or (c0.k == 'UnaryOperator' and c0.op == '!')):
+                if c0.k == 'UnaryOperator':
+                    neg0 = not neg0
+                    c0 = _strip_casts(c0.child('sub'))
+                else:
+                    c0 = _strip_casts(c0.c[0])
+            if c0 is not None and c0.k == 'DeclRefExpr' and c0.dk == 'local':
+                b_ = next((x[1] for x in st if x[0] == 'B' and x[1][0] == c0.d), None)
+                if b_ is not None:
+                    t, only = ((b_[1], b_[2]), b_[3] != neg0), set(b_[4])
         if t is None:
             return st
         (kind, what), ok_when_true = t
         success_edge = (k == 0) == ok_when_true
         out = set()
         for (s, i) in st:
-            mine = (kind == 'call' and index.get(what) == i) or (kind == 'var' and sites[i][1] == what) if i is not None else False
+            if s == 'B':
+                out.add((s, i))
+                continue
+            mine = _mine(i, kind, what) and (only is None or i in only)
             if s == 'U' and mine:
                 out.add(('N', None) if success_edge else ('E', i))
             elif s == 'E' and mine:
@@ -1110,7 +1137,7 @@ def check_error_checked(ctx, fn, callee, rule='R-ERRCHK'):
                 if not (decl is not None and ((decl.k == 'VarDecl' and 'v%d:%s' % (decl.d, decl.n) in bufkeys) or
                                               (decl.k != 'VarDecl' and lvalue_key(decl.child('lhs')) in bufkeys and n.pos > decl.child('lhs').pos))):
                     for (s, i) in st:
-                        if s != 'N':
+                        if s not in ('N', 'B'):
                             bad.setdefault(i, (n, s))
             st = transfer(n, st)
     for i, (c, var) in enumerate(sites):
